@@ -5,23 +5,28 @@ sys.path.insert(0, os.path.dirname(os.path.abspath(__file__)))
 from vlib import *
 PROP = 'C08'
 
-def gen_script(rng, l0, n, dist):
-    """a well-formed script against a simulated list: any index order, swaps, ranged deletes (a peer may send what this library never emits)"""
+def gen_script(rng, l0, n, dist, far=False):
+    """a well-formed script against a simulated list: any index order, swaps, ranged deletes (a peer may send what this library never emits);
+    far: half of the positions are taken within 40 of the END of the list (high indices)"""
     def hit(k): dist[k] = dist.get(k, 0) + 1
     l = list(l0); sc = []
+    def pos(hi):          # a position in [0, hi)
+        if far and hi > 80 and rng.random() < 0.5: return hi - 1 - rng.randrange(40)
+        return rng.randrange(hi)
     for _ in range(n):
         k = rng.random()
         if k < 0.25 and l:
-            i = rng.randrange(len(l)); v = rng.randrange(-50, 1000); l[i] = v; sc.append(f"R {v} {i}"); hit('replace')
+            i = pos(len(l)); v = rng.randrange(-50, 1000); l[i] = v; sc.append(f"R {v} {i}"); hit('replace')
         elif k < 0.55 or not l:
-            i = rng.choice([rng.randint(0, len(l)), len(l), 0]); v = rng.randrange(-50, 1000); l.insert(i, v); sc.append(f"I {v} {i}"); hit('insert')
+            i = rng.choice([pos(len(l) + 1), len(l), 0]); v = rng.randrange(-50, 1000); l.insert(i, v); sc.append(f"I {v} {i}"); hit('insert')
         elif k < 0.7:
-            i = rng.randrange(len(l)); del l[i]; sc.append(f"D {i} -"); hit('delete')
+            i = pos(len(l)); del l[i]; sc.append(f"D {i} -"); hit('delete')
         elif k < 0.85:
-            a = rng.randrange(len(l)); b = min(len(l) - 1, a + rng.choice([0, 1, 3, 9, 20, 40])); del l[a:b + 1]; sc.append(f"D {a} {b}"); hit('delete_range')
+            a = pos(len(l)); b = min(len(l) - 1, a + rng.choice([0, 1, 3, 9, 20, 40])); del l[a:b + 1]; sc.append(f"D {a} {b}"); hit('delete_range')
             if b - a >= 16: hit('delete_range_spans_chunks')
         else:
-            a, b = rng.randrange(len(l)), rng.randrange(len(l)); l[a], l[b] = l[b], l[a]; sc.append(f"S {a} {b}"); hit('swap')
+            a, b = pos(len(l)), rng.randrange(len(l)); l[a], l[b] = l[b], l[a]; sc.append(f"S {a} {b}"); hit('swap')
+            if abs(a - b) > 64: hit('swap_far_apart')
     return sc, l
 
 def main():
@@ -44,6 +49,12 @@ def main():
         l0 = [rng.randrange(100) for _ in range(rng.choice([0, 1, 5, 8, 9, 17, 40, 70]))]
         sc, lf = gen_script(rng, l0, rng.choice([0, 1, 3, 8, 20, 50]), dist)
         cases.append((f"w{i}", l0, sc)); expect[f"w{i}"] = (lf, sc)
+    # long lists and long scripts: indices above 255 (above 65535 in the thorough tier), scripts of several hundred entries
+    wide = [(300, 6), (300, 150), (1000, 12), (1000, 400)] + ([(70000, 6), (70000, 6), (3000, 300)] if a.tier == 'thorough' else [])
+    for j, (L, nops) in enumerate(wide):
+        l0 = [rng.randrange(100) for _ in range(L)]
+        sc, lf = gen_script(rng, l0, nops, dist, far=True)
+        cases.append((f"W{j}", l0, sc)); expect[f"W{j}"] = (lf, sc); dist['wide_case'] = dist.get('wide_case', 0) + 1
     f1 = os.path.join(WORK, f'cases_{PROP}_model.txt')
     open(f1, 'w').write('\n'.join(f"{cid} L {len(l0)} {' '.join(map(str, l0))} SC {' '.join(sc)}".replace('  ', ' ') for cid, l0, sc in cases) + '\n')
     model = {}
